@@ -108,6 +108,9 @@ func (d *Disk) opportunity(site string) error {
 	if d.only != "" && !strings.HasPrefix(site, d.only) {
 		return nil
 	}
+	if (d.Mode == "eio" || d.Mode == "enospc") && !realOpSite(site) {
+		return nil // errors are only injected where a real file operation follows
+	}
 	idx := d.opps
 	d.opps++
 	if idx != d.ArmAt {
@@ -130,6 +133,13 @@ func (d *Disk) opportunity(site string) error {
 }
 
 func siteKind(site string) string { return site }
+
+func realOpSite(site string) bool {
+	if strings.HasPrefix(site, "aof.") {
+		return true
+	}
+	return strings.HasPrefix(site, "snap.") && site != "snap.done"
+}
 
 // crash captures the post-crash image and marks the instance dead.
 func (d *Disk) crash() {
@@ -185,6 +195,10 @@ func applyOp(content []byte, op pendingOp, appendMode bool, upto int) []byte {
 			return append([]byte{}, content[:op.off]...)
 		}
 		return append([]byte{}, content...)
+	case "replace":
+		return append([]byte{}, op.data...)
+	case "delete":
+		return nil
 	case "write":
 		data := op.data
 		if upto >= 0 && upto < len(data) {
@@ -219,7 +233,7 @@ func (d *Disk) materialisePower(img string) {
 		n := d.dice.Next(len(sf.pending) + 1) // number of pending ops that survive completely
 		for i := 0; i < n; i++ {
 			content = applyOp(content, sf.pending[i], sf.appendMode, -1)
-			exists = true
+			exists = sf.pending[i].kind != "delete"
 		}
 		if n < len(sf.pending) && sf.pending[n].kind == "write" && len(sf.pending[n].data) > 1 {
 			// torn write: a strict prefix of the next write survives (maybe nothing)
@@ -414,6 +428,45 @@ func (d *Disk) FSEvent(kind, path string, b []byte) {
 		sf := d.shadow(path, false)
 		sf.pending = append(sf.pending, pendingOp{kind: "write", data: append([]byte{}, b...), off: sf.off})
 		sf.off += int64(len(b))
+	case "rename":
+		// b holds the old path. Forgiving model: the rename is a metadata operation that is persisted
+		// or not; either way the target is one of two complete files if the source was synced.
+		src := d.shadow(string(b), false)
+		content := append([]byte{}, src.durable...)
+		for _, op := range src.pending {
+			content = applyOp(content, op, false, -1)
+		}
+		dst := d.shadow(path, false)
+		if len(src.pending) == 0 {
+			dst.pending = append(dst.pending, pendingOp{kind: "replace", data: content})
+		} else {
+			// source not synced: the target may end up with a prefix of the source's writes
+			dst.pending = append(dst.pending, pendingOp{kind: "truncate"}, pendingOp{kind: "write", data: content})
+		}
+		src.pending = append(src.pending, pendingOp{kind: "delete"})
+	case "syncdir":
+		// fsync of a directory: pending renames/creates/deletes of its entries become durable
+		for _, sf := range d.files {
+			if filepath.Dir(sf.path) != path {
+				continue
+			}
+			meta := false
+			for _, op := range sf.pending {
+				if op.kind == "replace" || op.kind == "delete" {
+					meta = true
+				}
+			}
+			if !meta {
+				continue
+			}
+			content := append([]byte{}, sf.durable...)
+			exists := sf.exists
+			for _, op := range sf.pending {
+				content = applyOp(content, op, false, -1)
+				exists = op.kind != "delete"
+			}
+			sf.durable, sf.exists, sf.pending = content, exists, nil
+		}
 	case "sync":
 		sf := d.shadow(path, false)
 		content := append([]byte{}, sf.durable...)
